@@ -171,6 +171,9 @@ pub struct TargetCfg {
     /// Answer ICMP/UDP probes from this address instead of the probed one.
     pub reply_from: Option<IpAddr>,
     pub tcp_open: bool,
+    /// TCP: the target (a filter on it) rejects the SYN with an ICMP Destination Unreachable
+    /// of this code instead of answering the handshake.
+    pub tcp_reject_code: Option<u8>,
     pub quote: Quote,
     pub layout: ErrorLayout,
 }
@@ -347,6 +350,8 @@ pub struct Scenario {
     /// The network is quiet and lossless and rounds are long: the results with the neighbour
     /// must equal, hop by hop up to the path length, those of the same run without it.
     pub alone_equal: bool,
+    /// `Tracer::clear` is called right after this round was published.
+    pub clear_after_round: Option<u32>,
 }
 
 fn layout_json(l: &ErrorLayout) -> Value {
@@ -401,6 +406,7 @@ impl Scenario {
                     "behaviour": format!("{:?}", self.net.target.behaviour),
                     "reply_from": self.net.target.reply_from.map(|a| a.to_string()),
                     "tcp_open": self.net.target.tcp_open,
+                    "tcp_reject_code": self.net.target.tcp_reject_code,
                     "quote": format!("{:?}", self.net.target.quote),
                     "layout": layout_json(&self.net.target.layout),
                 },
